@@ -4,14 +4,32 @@ re-wiring; removal and clearing reach every holder. -/
 namespace QP.C18
 
 theorem awgRecB_iff (s : State) : awgRecB s = true ↔
-    ∀ (a : AwgId) (g : Awg), s.awgs[a]? = some g → ∀ n u, aget n g.progs = some u →
+    ∀ (a : AwgId) (g : Awg), s.awgs[a]? = some g → g.fault = 0 → ∀ n u, aget n g.progs = some u →
       ∃ r, aget n s.registered = some r ∧ a ∈ r.awgs := by
-  simp only [awgRecB, allIdx_iff, allGet_iff, decide_eq_true_iff]
+  simp only [awgRecB, allIdx_iff, Bool.or_eq_true, allGet_iff, decide_eq_true_iff]
+  constructor
+  · intro h a g hg hf
+    rcases h a g hg with h | h
+    · exact absurd hf h
+    · exact h
+  · intro h a g hg
+    by_cases hf : g.fault = 0
+    · exact Or.inr (h a g hg hf)
+    · exact Or.inl hf
 
 theorem dacRecB_iff (s : State) : dacRecB s = true ↔
-    ∀ (d : DacId) (g : Dac), s.dacs[d]? = some g → ∀ n w, aget n g.progs = some w →
+    ∀ (d : DacId) (g : Dac), s.dacs[d]? = some g → g.fault = 0 → ∀ n w, aget n g.progs = some w →
       ∃ r, aget n s.registered = some r ∧ d ∈ r.dacs := by
-  simp only [dacRecB, allIdx_iff, allGet_iff, decide_eq_true_iff]
+  simp only [dacRecB, allIdx_iff, Bool.or_eq_true, allGet_iff, decide_eq_true_iff]
+  constructor
+  · intro h d g hg hf
+    rcases h d g hg with h | h
+    · exact absurd hf h
+    · exact h
+  · intro h d g hg
+    by_cases hf : g.fault = 0
+    · exact Or.inr (h d g hg hf)
+    · exact Or.inl hf
 
 theorem recInvB_iff' (s : State) : recInvB s = true ↔ RecInv s := by
   simp only [recInvB, Bool.and_eq_true, awgRecB_iff, dacRecB_iff]
@@ -24,10 +42,10 @@ theorem judgeRec_ok_iff (s : State) : judgeRec s = "ok" ↔ recInvB s = true := 
 /-- the routing invariant implies the record invariant -/
 theorem recInv_of_inv {s : State} (hI : Inv s) : RecInv s := by
   constructor
-  · intro a g hg n u hu
+  · intro a g hg _ n u hu
     obtain ⟨r, hr, ⟨c, hc, o, ho, e⟩, _⟩ := hI.awgHeld a g hg n u hu
     exact ⟨r, hr, e ▸ (hI.regAwgs n r hr).2 c hc o ho⟩
-  · intro d g hg n w hw
+  · intro d g hg _ n w hw
     obtain ⟨r, hr, ⟨x, hx, m, hm, e⟩, _⟩ := hI.dacHeld d g hg n w hw
     exact ⟨r, hr, e ▸ (hI.regDacs n r hr).2 x hx m hm⟩
 
@@ -35,47 +53,51 @@ theorem recInv_of_inv {s : State} (hI : Inv s) : RecInv s := by
 theorem rec_update (s s' : State) (n : Name) (rnew : Option Reg) (hI : RecInv s)
     (hregn : aget n s'.registered = rnew)
     (hreg : ∀ n', n' ≠ n → aget n' s'.registered = aget n' s.registered)
-    (hawg : ∀ (a : AwgId) (g' : Awg), s'.awgs[a]? = some g' → ∃ g, s.awgs[a]? = some g ∧
+    (hawg : ∀ (a : AwgId) (g' : Awg), s'.awgs[a]? = some g' → g'.fault = 0 →
+        ∃ g, s.awgs[a]? = some g ∧ g.fault = 0 ∧
         (∀ n', n' ≠ n → aget n' g'.progs = aget n' g.progs) ∧
         (∀ u, aget n g'.progs = some u → ∃ r, rnew = some r ∧ a ∈ r.awgs))
-    (hdac : ∀ (d : DacId) (g' : Dac), s'.dacs[d]? = some g' → ∃ g, s.dacs[d]? = some g ∧
+    (hdac : ∀ (d : DacId) (g' : Dac), s'.dacs[d]? = some g' → g'.fault = 0 →
+        ∃ g, s.dacs[d]? = some g ∧ g.fault = 0 ∧
         (∀ n', n' ≠ n → aget n' g'.progs = aget n' g.progs) ∧
         (∀ w, aget n g'.progs = some w → ∃ r, rnew = some r ∧ d ∈ r.dacs)) :
     RecInv s' := by
   constructor
-  · intro a g' hg' n' u hu
-    obtain ⟨g, hg, hother, hheld⟩ := hawg a g' hg'
+  · intro a g' hg' hf' n' u hu
+    obtain ⟨g, hg, hf, hother, hheld⟩ := hawg a g' hg' hf'
     by_cases e : n' = n
     · subst e
       obtain ⟨r, hr, ha⟩ := hheld u hu
       exact ⟨r, by rw [hregn, hr], ha⟩
     · rw [hother n' e] at hu
-      obtain ⟨r, hr, ha⟩ := hI.awgRec a g hg n' u hu
+      obtain ⟨r, hr, ha⟩ := hI.awgRec a g hg hf n' u hu
       exact ⟨r, by rw [hreg n' e, hr], ha⟩
-  · intro d g' hg' n' w hw
-    obtain ⟨g, hg, hother, hheld⟩ := hdac d g' hg'
+  · intro d g' hg' hf' n' w hw
+    obtain ⟨g, hg, hf, hother, hheld⟩ := hdac d g' hg' hf'
     by_cases e : n' = n
     · subst e
       obtain ⟨r, hr, ha⟩ := hheld w hw
       exact ⟨r, by rw [hregn, hr], ha⟩
     · rw [hother n' e] at hw
-      obtain ⟨r, hr, ha⟩ := hI.dacRec d g hg n' w hw
+      obtain ⟨r, hr, ha⟩ := hI.dacRec d g hg hf n' w hw
       exact ⟨r, by rw [hreg n' e, hr], ha⟩
 
 /-- operations that leave records and device dictionaries alone (all wiring operations, arming) -/
 theorem rec_same (s s' : State) (hI : RecInv s) (hreg : s'.registered = s.registered)
-    (hawg : ∀ (a : AwgId) (g' : Awg), s'.awgs[a]? = some g' → ∃ g, s.awgs[a]? = some g ∧ g'.progs = g.progs)
-    (hdac : ∀ (d : DacId) (g' : Dac), s'.dacs[d]? = some g' → ∃ g, s.dacs[d]? = some g ∧ g'.progs = g.progs) :
+    (hawg : ∀ (a : AwgId) (g' : Awg), s'.awgs[a]? = some g' → g'.fault = 0 →
+        ∃ g, s.awgs[a]? = some g ∧ g.fault = 0 ∧ g'.progs = g.progs)
+    (hdac : ∀ (d : DacId) (g' : Dac), s'.dacs[d]? = some g' → g'.fault = 0 →
+        ∃ g, s.dacs[d]? = some g ∧ g.fault = 0 ∧ g'.progs = g.progs) :
     RecInv s' := by
   constructor
-  · intro a g' hg' n u hu
-    obtain ⟨g, hg, e⟩ := hawg a g' hg'
+  · intro a g' hg' hf' n u hu
+    obtain ⟨g, hg, hf, e⟩ := hawg a g' hg' hf'
     rw [e] at hu
-    rw [hreg]; exact hI.awgRec a g hg n u hu
-  · intro d g' hg' n w hw
-    obtain ⟨g, hg, e⟩ := hdac d g' hg'
+    rw [hreg]; exact hI.awgRec a g hg hf n u hu
+  · intro d g' hg' hf' n w hw
+    obtain ⟨g, hg, hf, e⟩ := hdac d g' hg' hf'
     rw [e] at hw
-    rw [hreg]; exact hI.dacRec d g hg n w hw
+    rw [hreg]; exact hI.dacRec d g hg hf n w hw
 
 theorem rec_setChannelCore {s s' : State} {id : Chan} {outs : List Out} {allow junk : Bool} (hI : RecInv s)
     (h : setChannelCore s id outs allow junk = .ok s') : RecInv s' := by
@@ -86,7 +108,7 @@ theorem rec_setChannelCore {s s' : State} {id : Chan} {outs : List Out} {allow j
   · cases h
   injection h with h
   subst h
-  exact rec_same s _ hI rfl (fun a g' hg' => ⟨g', hg', rfl⟩) (fun d g' hg' => ⟨g', hg', rfl⟩)
+  exact rec_same s _ hI rfl (fun a g' hg' hf => ⟨g', hg', hf, rfl⟩) (fun d g' hg' hf => ⟨g', hg', hf, rfl⟩)
 
 theorem rec_setMeasurementCore {s s' : State} {μ : MName} {masks : List MaskRef} {allow : Bool} (hI : RecInv s)
     (h : setMeasurementCore s μ masks allow = .ok s') : RecInv s' := by
@@ -95,7 +117,7 @@ theorem rec_setMeasurementCore {s s' : State} {μ : MName} {masks : List MaskRef
   · cases h
   injection h with h
   subst h
-  exact rec_same s _ hI rfl (fun a g' hg' => ⟨g', hg', rfl⟩) (fun d g' hg' => ⟨g', hg', rfl⟩)
+  exact rec_same s _ hI rfl (fun a g' hg' hf => ⟨g', hg', hf, rfl⟩) (fun d g' hg' hf => ⟨g', hg', hf, rfl⟩)
 
 theorem rec_register {s s' : State} {n : Name} {p : Program} {cbOk update : Bool}
     {ov : Option (List (MName × Windows))} (hI : RecInv s)
@@ -110,54 +132,58 @@ theorem rec_register {s s' : State} {n : Name} {p : Program} {cbOk update : Bool
   · cases h
   split at h
   · cases h
+  split at h
+  · cases h
   injection h with h
   subst h
   simp only [if_true]
   refine rec_update s _ n (some _) hI (aget_aput_self _ _ _) (fun n' e => aget_aput_ne e _ _) ?_ ?_
-  · intro a g' hg'
+  · intro a g' hg' hf'
     obtain ⟨g, hg, e⟩ := mapIdx_get hg'
-    refine ⟨g, hg, ?_⟩
     by_cases hp : a ∈ List.map (fun x => x.snd.awg) (assignments s.chanMap p.channels)
     · simp only [hp, if_true] at e
       subst e
-      exact ⟨fun n' e => aget_aput_ne e _ _, fun u _ => ⟨_, rfl, hp⟩⟩
+      exact ⟨g, hg, hf', fun n' e => aget_aput_ne e _ _, fun u _ => ⟨_, rfl, hp⟩⟩
     · simp only [hp, if_false] at e
       by_cases hst : a ∈ oldAwgs s n
       · rw [if_pos hst] at e
+        have hf : g.fault = 0 := by rw [← awgDrop_fault n g, ← e]; exact hf'
+        rw [awgDrop_healthy hf] at e
         subst e
-        refine ⟨fun n' e => aget_adel_ne e _, ?_⟩
+        refine ⟨g, hg, hf, fun n' e => aget_adel_ne e _, ?_⟩
         intro u hu
         rw [aget_adel_self] at hu
         cases hu
       · rw [if_neg hst] at e
         subst e
-        refine ⟨fun _ _ => rfl, ?_⟩
+        refine ⟨g', hg, hf', fun _ _ => rfl, ?_⟩
         intro u hu
         exfalso
-        obtain ⟨r0, hr0, ha⟩ := hI.awgRec a g' hg n u hu
+        obtain ⟨r0, hr0, ha⟩ := hI.awgRec a g' hg hf' n u hu
         simp only [oldAwgs, hr0] at hst
         exact hst ha
-  · intro d g' hg'
+  · intro d g' hg' hf'
     obtain ⟨g, hg, e⟩ := mapIdx_get hg'
-    refine ⟨g, hg, ?_⟩
     by_cases hp : d ∈ List.map (fun x => x.fst.dac) (maskAsg s.measMap (ov.getD p.meas))
     · simp only [hp, if_true] at e
       subst e
-      exact ⟨fun n' e => aget_aput_ne e _ _, fun w _ => ⟨_, rfl, hp⟩⟩
+      exact ⟨g, hg, hf', fun n' e => aget_aput_ne e _ _, fun w _ => ⟨_, rfl, hp⟩⟩
     · simp only [hp, if_false] at e
       by_cases hst : d ∈ oldDacs s n
       · rw [if_pos hst] at e
+        have hf : g.fault = 0 := by rw [← dacDrop_fault n g, ← e]; exact hf'
+        rw [dacDrop_healthy hf] at e
         subst e
-        refine ⟨fun n' e => aget_adel_ne e _, ?_⟩
+        refine ⟨g, hg, hf, fun n' e => aget_adel_ne e _, ?_⟩
         intro w hw
         rw [aget_adel_self] at hw
         cases hw
       · rw [if_neg hst] at e
         subst e
-        refine ⟨fun _ _ => rfl, ?_⟩
+        refine ⟨g', hg, hf', fun _ _ => rfl, ?_⟩
         intro w hw
         exfalso
-        obtain ⟨r0, hr0, ha⟩ := hI.dacRec d g' hg n w hw
+        obtain ⟨r0, hr0, ha⟩ := hI.dacRec d g' hg hf' n w hw
         simp only [oldDacs, hr0] at hst
         exact hst ha
 
@@ -168,87 +194,93 @@ theorem rec_remove {s : State} (n : Name) (hI : RecInv s) : RecInv (remove s n) 
   | some r =>
     simp only
     refine rec_update s _ n none hI (aget_adel_self _ _) (fun n' e => aget_adel_ne e _) ?_ ?_
-    · intro a g' hg'
+    · intro a g' hg' hf'
       obtain ⟨g, hg, e⟩ := mapIdx_get hg'
-      refine ⟨g, hg, ?_⟩
       by_cases hp : a ∈ r.awgs
       · rw [if_pos hp] at e
+        have hf : g.fault = 0 := by rw [← awgDrop_fault n g, ← e]; exact hf'
+        rw [awgDrop_healthy hf] at e
         subst e
-        refine ⟨fun n' e => aget_adel_ne e _, ?_⟩
+        refine ⟨g, hg, hf, fun n' e => aget_adel_ne e _, ?_⟩
         intro u hu
         rw [aget_adel_self] at hu
         cases hu
       · rw [if_neg hp] at e
         subst e
-        refine ⟨fun _ _ => rfl, ?_⟩
+        refine ⟨g', hg, hf', fun _ _ => rfl, ?_⟩
         intro u hu
         exfalso
-        obtain ⟨r0, hr0, ha⟩ := hI.awgRec a g' hg n u hu
+        obtain ⟨r0, hr0, ha⟩ := hI.awgRec a g' hg hf' n u hu
         rw [hr] at hr0
         injection hr0 with hr0; subst hr0
         exact hp ha
-    · intro d g' hg'
+    · intro d g' hg' hf'
       obtain ⟨g, hg, e⟩ := mapIdx_get hg'
-      refine ⟨g, hg, ?_⟩
       by_cases hp : d ∈ r.dacs
       · rw [if_pos hp] at e
+        have hf : g.fault = 0 := by rw [← dacDrop_fault n g, ← e]; exact hf'
+        rw [dacDrop_healthy hf] at e
         subst e
-        refine ⟨fun n' e => aget_adel_ne e _, ?_⟩
+        refine ⟨g, hg, hf, fun n' e => aget_adel_ne e _, ?_⟩
         intro w hw
         rw [aget_adel_self] at hw
         cases hw
       · rw [if_neg hp] at e
         subst e
-        refine ⟨fun _ _ => rfl, ?_⟩
+        refine ⟨g', hg, hf', fun _ _ => rfl, ?_⟩
         intro w hw
         exfalso
-        obtain ⟨r0, hr0, ha⟩ := hI.dacRec d g' hg n w hw
+        obtain ⟨r0, hr0, ha⟩ := hI.dacRec d g' hg hf' n w hw
         rw [hr] at hr0
         injection hr0 with hr0; subst hr0
         exact hp ha
 
-/-- after the repaired `clear_programs` no device holds anything -/
+/-- after the repaired `clear_programs` no device that obeys holds anything -/
 theorem clear_empty {s : State} (hI : RecInv s) :
-    (∀ (a : AwgId) (g : Awg), (clear s).awgs[a]? = some g → ∀ n, aget n g.progs = none) ∧
-    (∀ (d : DacId) (g : Dac), (clear s).dacs[d]? = some g → ∀ n, aget n g.progs = none) := by
+    (∀ (a : AwgId) (g : Awg), (clear s).awgs[a]? = some g → g.fault = 0 → ∀ n, aget n g.progs = none) ∧
+    (∀ (d : DacId) (g : Dac), (clear s).dacs[d]? = some g → g.fault = 0 → ∀ n, aget n g.progs = none) := by
   unfold clear clearWith
   constructor
-  · intro a g' hg' n
+  · intro a g' hg' hf' n
     obtain ⟨g, hg, e⟩ := mapIdx_get hg'
     by_cases hk : knownAwg s a = true
     · rw [if_pos hk] at e; subst e; rfl
     · rw [if_neg hk] at e
       simp only [if_true] at e
+      have hf : g.fault = 0 := by rw [e] at hf'; exact hf'
+      simp only [hf, if_true] at e
       subst e
       cases hu : aget n (List.filter (fun kv => !recordedOnAwg s a kv.fst) g.progs) with
       | none => rfl
       | some u =>
         exfalso
         obtain ⟨hu', hp⟩ := aget_of_filter_key (p := fun n => !recordedOnAwg s a n) hu
-        obtain ⟨r, hr, ha⟩ := hI.awgRec a g hg n u hu'
+        obtain ⟨r, hr, ha⟩ := hI.awgRec a g hg hf n u hu'
         simp [recordedOnAwg, hr, ha] at hp
-  · intro d g' hg' n
+  · intro d g' hg' hf' n
     obtain ⟨g, hg, e⟩ := mapIdx_get hg'
     by_cases hk : knownDac s d = true
     · rw [if_pos hk] at e; subst e; rfl
     · rw [if_neg hk] at e
       simp only [if_true] at e
+      have hf : g.fault = 0 := by rw [e] at hf'; exact hf'
+      simp only [hf, if_true] at e
       subst e
       cases hw : aget n (List.filter (fun kv => !recordedOnDac s d kv.fst) g.progs) with
       | none => rfl
       | some w =>
         exfalso
         obtain ⟨hw', hp⟩ := aget_of_filter_key (p := fun n => !recordedOnDac s d n) hw
-        obtain ⟨r, hr, ha⟩ := hI.dacRec d g hg n w hw'
+        obtain ⟨r, hr, ha⟩ := hI.dacRec d g hg hf n w hw'
         simp [recordedOnDac, hr, ha] at hp
 
 theorem rec_clear {s : State} (hI : RecInv s) : RecInv (clear s) := by
   obtain ⟨h1, h2⟩ := clear_empty hI
   constructor
-  · intro a g hg n u hu
-    rw [h1 a g hg n] at hu; cases hu
-  · intro d g hg n w hw
-    rw [h2 d g hg n] at hw; cases hw
+  · intro a g hg hf n u hu
+    rw [h1 a g hg hf n] at hu; cases hu
+  · intro d g hg hf n w hw
+    rw [h2 d g hg hf n] at hw; cases hw
 
 theorem rec_arm {s s' : State} {n : Name} (hI : RecInv s) (h : arm s n = .ok s') : RecInv s' := by
   unfold arm at h
@@ -256,21 +288,25 @@ theorem rec_arm {s s' : State} {n : Name} (hI : RecInv s) (h : arm s n = .ok s')
   | none => rw [hr] at h; cases h
   | some r =>
     rw [hr] at h
+    simp only at h
+    split at h
+    · cases h
     injection h with h
     subst h
     refine rec_same s _ hI rfl ?_ ?_
-    · intro a g' hg'
+    · intro a g' hg' hf'
       obtain ⟨g, hg, e⟩ := mapIdx_get hg'
       refine ⟨g, hg, ?_⟩
       subst e
-      split <;> rfl
-    · intro d g' hg'
+      split at hf' <;> (refine ⟨hf', ?_⟩; split <;> rfl)
+    · intro d g' hg' hf'
       obtain ⟨g, hg, e⟩ := mapIdx_get hg'
       refine ⟨g, hg, ?_⟩
       subst e
-      split <;> rfl
+      split at hf' <;> (refine ⟨hf', ?_⟩; split <;> rfl)
 
-theorem rec_step' {s s' : State} {op : Op} (hI : RecInv s) (h : step s op = .ok s') : RecInv s' := by
+theorem rec_step' {s s' : State} {op : Op} (hI : RecInv s) (hh : heals s op = false)
+    (h : step s op = .ok s') : RecInv s' := by
   cases op with
   | setChannel id specs allow =>
     simp only [step, stepWith, setChannel] at h
@@ -301,7 +337,7 @@ theorem rec_step' {s s' : State} {op : Op} (hI : RecInv s) (h : step s op = .ok 
     split at h
     · injection h with h
       subst h
-      exact rec_same s _ hI rfl (fun a g' hg' => ⟨g', hg', rfl⟩) (fun d g' hg' => ⟨g', hg', rfl⟩)
+      exact rec_same s _ hI rfl (fun a g' hg' hf => ⟨g', hg', hf, rfl⟩) (fun d g' hg' hf => ⟨g', hg', hf, rfl⟩)
     · cases h
   | register n p cbOk update ov => exact rec_register hI h
   | remove n =>
@@ -312,5 +348,53 @@ theorem rec_step' {s s' : State} {op : Op} (hI : RecInv s) (h : step s op = .ok 
     injection h with h; subst h; exact rec_clear hI
   | arm n => exact rec_arm hI h
   | run n => exact rec_arm hI h
+  | setFaultAwg a mode =>
+    simp only [step, stepWith] at h
+    cases hg0 : s.awgs[a]? with
+    | none => rw [hg0] at h; cases h
+    | some g0 =>
+      rw [hg0] at h
+      injection h with h
+      subst h
+      refine rec_same s _ hI rfl ?_ (fun d g' hg' hf => ⟨g', hg', hf, rfl⟩)
+      intro i g' hg' hf'
+      obtain ⟨g, hg, e⟩ := mapIdx_get hg'
+      refine ⟨g, hg, ?_⟩
+      by_cases hi : i = a
+      · subst hi
+        rw [if_pos rfl] at e
+        subst e
+        simp only at hf'
+        rw [hg0] at hg
+        injection hg with hg; subst hg
+        simp only [heals, hg0, hf', decide_true, Bool.true_and, decide_eq_false_iff_not, Decidable.not_not] at hh
+        exact ⟨hh, rfl⟩
+      · rw [if_neg hi] at e
+        subst e
+        exact ⟨hf', rfl⟩
+  | setFaultDac d mode =>
+    simp only [step, stepWith] at h
+    cases hg0 : s.dacs[d]? with
+    | none => rw [hg0] at h; cases h
+    | some g0 =>
+      rw [hg0] at h
+      injection h with h
+      subst h
+      refine rec_same s _ hI rfl (fun a g' hg' hf => ⟨g', hg', hf, rfl⟩) ?_
+      intro i g' hg' hf'
+      obtain ⟨g, hg, e⟩ := mapIdx_get hg'
+      refine ⟨g, hg, ?_⟩
+      by_cases hi : i = d
+      · subst hi
+        rw [if_pos rfl] at e
+        subst e
+        simp only at hf'
+        rw [hg0] at hg
+        injection hg with hg; subst hg
+        simp only [heals, hg0, hf', decide_true, Bool.true_and, decide_eq_false_iff_not, Decidable.not_not] at hh
+        exact ⟨hh, rfl⟩
+      · rw [if_neg hi] at e
+        subst e
+        exact ⟨hf', rfl⟩
 
 end QP.C18
